@@ -68,6 +68,12 @@ func c09Pre(pre int) *stun.Message {
 		m.TransactionID = [12]byte{0xEE, 0xEE, 0xEE, 0xEE, 0xEE, 0xEE, 0xEE, 0xEE, 0xEE, 0xEE, 0xEE, 0xEE}
 		m.Type = stun.BindingError
 		return m
+	case 100, 101, 102, 103: // a message that is full, or nearly: what still fits is the precondition's business, what a setter refuses anyway is not
+		m := new(stun.Message)
+		m.TransactionID = [12]byte{1, 2, 3, 4, 5, 6, 7, 8, 9, 10, 11, 12}
+		m.WriteHeader()
+		m.Add(stun.AttrData, make([]byte, []int{65532, 65528, 65000, 64768}[pre-100]-4))
+		return m
 	default:
 		return stun.MustBuild(stun.BindingRequest, tid, stun.NewUsername("abc"), stun.NewRealm("de"), stun.NewNonce("fghij"))
 	}
@@ -293,6 +299,12 @@ func c09Menu(i int) (stun.Setter, bool) {
 		return setterFunc(func(m *stun.Message) error { return errC09Menu }), false
 	case 4:
 		return &stun.XORMappedAddress{IP: net.IPv4(1, 2, 3, 4), Port: 5}, true
+	case 7: // the setters that write the header, listed wherever a caller lists them
+		return stun.BindingSuccess, true
+	case 8:
+		return stun.NewTransactionIDSetter([12]byte{8, 8, 8}), true
+	case 9:
+		return &stun.Message{TransactionID: [12]byte{9, 9}}, true // a *Message as a setter copies its transaction id
 	default:
 		return stun.Fingerprint, true
 	}
@@ -455,23 +467,40 @@ func init() {
 				for _, n := range []int{0, 1, 20, 64, 65} {
 					do(c09Case{Setter: "MessageIntegrity", N: n, Pre: pre})
 				}
-				// Build with every list of <= 3 setters from the 6-element menu
+				// Build with every list of <= 3 setters from the 10-element menu
 				do(c09Case{Setter: "Build", Pre: pre, Build: []int{}})
-				for a := 0; a < 7; a++ {
+				for a := 0; a < 10; a++ {
 					do(c09Case{Setter: "Build", Pre: pre, Build: []int{a}})
-					for b := 0; b < 7; b++ {
+					for b := 0; b < 10; b++ {
 						do(c09Case{Setter: "Build", Pre: pre, Build: []int{a, b}})
-						for d := 0; d < 7; d++ {
+						for d := 0; d < 10; d++ {
 							do(c09Case{Setter: "Build", Pre: pre, Build: []int{a, b, d}})
 							if c.Thorough() {
-								for e := 0; e < 7; e++ {
+								for e := 0; e < 10; e++ {
 									do(c09Case{Setter: "Build", Pre: pre, Build: []int{a, b, d, e}})
-									for f := 0; f < 7; f++ {
+									for f := 0; f < 10; f++ {
 										do(c09Case{Setter: "Build", Pre: pre, Build: []int{a, b, d, e, f}})
 									}
 								}
 							}
 						}
+					}
+				}
+			}
+			// on a message that is full or nearly full: every value a setter refuses on an empty message is refused here too,
+			// with the same error, and nothing is written
+			for pre := 100; pre <= 103; pre++ {
+				for _, ts := range []struct {
+					name string
+					max  int
+				}{{"Username", 513}, {"Realm", 763}, {"Nonce", 763}, {"Software", 763}, {"ErrorCodeAttribute", 763}} {
+					for _, n := range []int{ts.max + 1, ts.max + 2, ts.max + 3, ts.max + 4, ts.max + 100, ts.max + 300} {
+						do(c09Case{Setter: ts.name, N: n, Pre: pre})
+					}
+				}
+				for _, name := range []string{"XORMappedAddress", "MappedAddress", "AlternateServer"} {
+					for _, n := range []int{0, 3, 5, 15, 17} {
+						do(c09Case{Setter: name, N: n, Pre: pre})
 					}
 				}
 			}
